@@ -606,7 +606,16 @@ func doReplay(eng Engine, res *Result, prop string) error {
 	}
 	o := eng.Execute(plan, prop)
 	res.Runs = 1
-	ok := pick(&o, rp.Key) && o.LogHash == rp.LogHash
+	same := pick(&o, rp.Key)
+	if !same && o.Violation != nil && strings.Contains(rp.Key, "/data-race/") && strings.Contains(o.Violation.Key, "/data-race/") {
+		// the race detector keeps four accesses per eight bytes of memory and evicts
+		// at random: of several racing pairs in one run, which ones it reports can
+		// differ between two processes executing the same schedule. The same plan
+		// with the same event log showing a data race again is the reproduction; the
+		// pair it found this time is in the result.
+		same = true
+	}
+	ok := same && o.LogHash == rp.LogHash
 	res.ReplayOK = &ok
 	if o.Violation != nil {
 		pj, _ := json.Marshal(plan)
